@@ -23,7 +23,7 @@ ASSUMPTIONS = [
 ]
 BUDGET = {'quick': 8000, 'thorough': 200000}
 
-PERTURB = ['copy', 'permute', 'sym', 'leaf', 'addkey', 'subclass', 'num', 'dropkey', 'wrap']
+PERTURB = ['copy', 'permute', 'sym', 'leaf', 'addkey', 'subclass', 'num', 'dropkey', 'wrap', 'typedwrap', 'permute']
 KEYS = ['k', 'm', 'n', 0, 1]
 
 
@@ -123,6 +123,11 @@ def _perturb(d, kind, arg):
     return conv(d)
   if kind == 'wrap':
     return [d] if arg % 2 else {'$d': [['k', d]]}
+  if kind == 'typedwrap':
+    # a dict with str keys held by a field whose schema does not fix the keys
+    if isinstance(d, dict) and '$d' in d and d['$d'] and all(isinstance(k, str) for k, _ in d['$d']):
+      return {'$o': 'DK', 'a': {('m', 's')[arg % 2]: d}}
+    return {'$o': 'DK', 'a': {'m': {'$d': [['k', d], ['m', arg]]}}}
   raise core.InvalidCase(kind)
 
 
